@@ -153,6 +153,10 @@ def corpus_histories():
         # visual parameters of an object, detached and removed
         [op("create_object", 0, 0, 1), op("visual", 0), op("remove_parent", -1, 0, 0), op("gc"), op("reopen"), op("visual", 0),
          op("remove_ws", -1, 0, 0), op("reopen"), op("visual", 0), op("create_group", 0, 0), op("copy", 1, 1, 0), op("reopen")],
+        # a property group that lists vertex data and cell data of one curve; the cell data then leave the object
+        [op("create_object", 0, 2, 0), op("add_data", 0, 0, 4), op("add_data", 0, 0, 1), op("pg_add", 0, 0, 2), op("pg_add", 0, 1, 2),
+         op("remove_ws", -1, 0, 0), op("gc"), op("reopen"), op("add_data", 0, 0, 5), op("pg_add", 0, 1, 2), op("remove_parent", -1, 0, 0),
+         op("gc"), op("reopen")],
         # comments of an object and of a group, a second comment, copy of the owner, removal of the owner
         [op("create_group", 0, 0), op("create_object", 1, 2, 1), op("comment", 1, 1, 1), op("comment", 1, 2, 1), op("comment", 0, 3, 1),
          op("copy", 1, 0, 0), op("reopen"), op("remove_ws", 1, 0, 0), op("gc"), op("reopen")],
